@@ -420,6 +420,12 @@ def cases(tier, rng):
         yield case_line('r2.parse', pre + ' ' + '(a' * d + '\\(' + 'b)' * d)
         yield case_line('r2.parse', pre + ' ' + '(a' * d + '\\' + ')' * d)
         yield case_line('r2.parse', pre + ' (a)' * d)
+    # deep nesting: the depth counter at and beyond the 8-bit limit (deeper nesting makes the list-based model quadratic: 2^16 levels took > 30 min) (balanced, one short, one over)
+    for d in (100, 254, 255, 256, 257, 300, 511, 512, 1000):
+        yield case_line('r2.parse', pre + ' ' + '(' * d + 'UTC' + ')' * d)
+        yield case_line('r2.parse', pre + ' ' + '(' * d + ')' * (d - 1))
+        yield case_line('r2.parse', pre + ' ' + '(' * d + ')' * (d + 1))
+        yield case_line('r2.parse', pre + ' ' + '(' * d)
     for _ in range(4000 if quick else 100000):
         c = gen_comments(rng) or gen_comment(rng)
         yield case_line('r2.parse', pre + c)
